@@ -463,6 +463,92 @@ func (ex *Ex) relevantAxioms(asserts []*T, heap map[string]*T) []*T {
 	return out
 }
 
+// quantifiedUnfolds: for recursive spec functions applied to bound variables somewhere in the
+// query, ground instantiation cannot reach; emit the definitional axiom quantified with the
+// application as its pattern (e-matching).
+func (ex *Ex) quantifiedUnfolds(asserts []*T, heap map[string]*T) []*T {
+	w := ex.W
+	need := map[string]bool{}
+	var rec func(t *T, bound map[string]bool)
+	rec = func(t *T, bound map[string]bool) {
+		if t.Kind == kQuant {
+			nb := map[string]bool{}
+			for k := range bound {
+				nb[k] = true
+			}
+			for _, v := range t.QVars {
+				nb[v.Op] = true
+			}
+			rec(t.Args[0], nb)
+			return
+		}
+		if t.Kind == kApp && strings.HasPrefix(t.Op, "f$") && containsBound(t, bound) {
+			need[t.Op] = true
+		}
+		for _, a := range t.Args {
+			rec(a, bound)
+		}
+	}
+	for _, a := range asserts {
+		rec(a, map[string]bool{})
+	}
+	st := NewState()
+	st.heap = copyHeap(heap)
+	var out []*T
+	done := map[string]bool{}
+	for changed := true; changed; {
+		changed = false
+		for _, sym := range sortedKeys(need) {
+			if done[sym] {
+				continue
+			}
+			done[sym] = true
+			f := w.SpecFuncs[strings.TrimPrefix(sym, "f$")]
+			if f == nil || f.Unfold == nil {
+				continue
+			}
+			env := &Env{ex: ex, st: st, vars: map[string]SV{}, pkgName: f.PkgName}
+			var vars, args []*T
+			ok := true
+			for _, p := range f.Params {
+				pt, err := w.ResolveType(p.Type, f.PkgName)
+				if err != nil {
+					ok = false
+					break
+				}
+				v := Var(p.Name+"$u", ex.sortOfS(pt))
+				vars = append(vars, v)
+				args = append(args, v)
+				env.vars[p.Name] = SV{T: v, Ty: pt}
+			}
+			if !ok {
+				continue
+			}
+			body, err := ex.tr(env, f.Unfold)
+			if err != nil {
+				continue
+			}
+			ret, _ := w.ResolveType(f.Ret, f.PkgName)
+			body = ex.coerceNil(body, ret)
+			app := App(sym, ex.sortOfS(ret), args...)
+			if body.T == nil || !body.T.S.Eq(app.S) {
+				continue
+			}
+			out = append(out, Forall(vars, Eq(app, body.T), []*T{app}))
+			// functions mentioned in the body are now applied to bound variables too
+			Walk(body.T, func(x *T) {
+				if x.Kind == kApp && strings.HasPrefix(x.Op, "f$") && !need[x.Op] {
+					if g := w.SpecFuncs[strings.TrimPrefix(x.Op, "f$")]; g != nil && g.Unfold != nil {
+						need[x.Op] = true
+						changed = true
+					}
+				}
+			})
+		}
+	}
+	return out
+}
+
 // BuildSMT renders a query.
 func (ex *Ex) BuildSMT(q *Query, rounds int) string {
 	w := ex.W
@@ -475,6 +561,7 @@ func (ex *Ex) BuildSMT(q *Query, rounds int) string {
 	// instances for terms introduced by axioms
 	extra2 := ex.instantiate(asserts, q.Heap, 1)
 	asserts = append(asserts, extra2...)
+	asserts = append(asserts, ex.quantifiedUnfolds(asserts, q.Heap)...)
 	facts, tdefs := ex.typeFacts(asserts)
 	asserts = append(asserts, facts...)
 	// slice lengths are non-negative
